@@ -4,7 +4,7 @@ from lib.coqterm import cbytes, clist, copt, cpair, cnat, hx, unhx
 
 ID = "C34"
 QUICK_N = 3000
-THOROUGH_N = 60000
+THOROUGH_N = 30000
 SHARD = 300
 RULE = ("15 case kinds: quote/unquote, url.encode (with similar_to), url.decode, Request.query set/get on a raw path "
         "(params, query, fragment, TAB/CR/LF, repeated slashes), path_components, urlencoded_form (old bodies with and "
@@ -153,7 +153,7 @@ def gparts(rng, boundary):
 
 def gct(rng):
     r = rng.random()
-    b = rng.choice(BOUNDARIES)
+    b = rng.choice(BOUNDARIES[:5]) if rng.chance(0.7) else rng.choice(BOUNDARIES[5:])
     if r < 0.8:
         return "multipart/form-data; boundary=" + b.decode(), b
     if r < 0.85:
@@ -248,7 +248,10 @@ def gen_one(rng, k):
             ct = None
         return {"k": k, "ct": ct, "parts": gparts(rng, b or b"0123456789abcdef")}
     if k == "queryop":
-        return {"k": k, "path": hx(gpath(rng)), "op": gop(rng, URL_T)}
+        p = gpath(rng)
+        if rng.chance(0.5):
+            p = p.split(b"?")[0].split(b"#")[0] + b"?a=1&b=2&a=3&k=&b"
+        return {"k": k, "path": hx(p), "op": gop(rng, URL_T)}
     raise AssertionError(k)
 
 
@@ -271,6 +274,17 @@ def _req(path=b"/", fields=(), content=b""):
     r.data.path = path
     r.headers = http.Headers([(unhx(a), unhx(b)) for a, b in fields])
     return r
+
+
+def _others(r, idx):
+    """the urlparse components (2 path, 3 params, 4 query, 5 fragment) a view must leave alone, by urllib itself"""
+    import urllib.parse
+    p = urllib.parse.urlparse(r.url)
+    return [hx(E(p[i])) for i in idx]
+
+
+def _other_headers(fields, name):
+    return [[a, b] for a, b in fields if unhx(a).lower() != name]
 
 
 def _hp(l):
@@ -328,17 +342,20 @@ def run_impl(case):
         r = _req(unhx(case["path"]))
         before = _hp(r.query.fields)
         r2 = r.copy()
+        o1 = _others(r, (2, 3, 5))
         r.query = _sp(case["l"])
         r2.query = r2.query.fields
-        return {"before": before, "path_after": hx(r.data.path), "after": _hp(r.query.fields), "wb": _hp(r2.query.fields)}
+        return {"before": before, "path_after": hx(r.data.path), "after": _hp(r.query.fields), "wb": _hp(r2.query.fields),
+                "others": [o1, _others(r, (2, 3, 5))]}
     if k == "pathcomp":
         r = _req(unhx(case["path"]))
         before = [hx(E(c)) for c in r.path_components]
         r2 = r.copy()
+        o1 = _others(r, (3, 4, 5))
         r.path_components = [D(unhx(c)) for c in case["comps"]]
         r2.path_components = r2.path_components
         return {"before": before, "path_after": hx(r.data.path), "after": [hx(E(c)) for c in r.path_components],
-                "wb": [hx(E(c)) for c in r2.path_components]}
+                "wb": [hx(E(c)) for c in r2.path_components], "others": [o1, _others(r, (3, 4, 5))]}
     if k == "form":
         fields = [] if case["ct"] is None else [[hx(b"content-type"), hx(case["ct"].encode())]]
         r = _req(b"/", fields, None if case["old"] is None else unhx(case["old"]))
@@ -606,11 +623,15 @@ def oracle(case, obs):
             v.append({"key": "query-roundtrip", "what": f"path {case['path']}: query = {case['l']} reads back {obs['after']}"})
         if obs["wb"] != obs["before"]:
             v.append({"key": "query-writeback", "what": f"path {case['path']}: query {obs['before']} written back reads {obs['wb']}"})
+        if obs["others"][0] != obs["others"][1]:
+            v.append({"key": "query-other-parts", "what": f"path {case['path']}: assigning query changed path/params/fragment {obs['others']}"})
     elif k == "pathcomp":
         if all(case["comps"]) and obs["after"] != case["comps"]:
             v.append({"key": "pathcomp-roundtrip", "what": f"path {case['path']}: components {case['comps']} read back {obs['after']}"})
         if obs["wb"] != obs["before"]:
             v.append({"key": "pathcomp-writeback", "what": f"path {case['path']}: {obs['before']} written back reads {obs['wb']}"})
+        if obs["others"][0] != obs["others"][1]:
+            v.append({"key": "pathcomp-other-parts", "what": f"path {case['path']}: assigning components changed params/query/fragment {obs['others']}"})
     elif k == "form":
         if obs["after"] != case["l"]:
             lossy = _similar_mode(obs["old_text"]) and ["", ""] in case["l"]
@@ -628,11 +649,15 @@ def oracle(case, obs):
             v.append({"key": "cookie-roundtrip", "what": f"headers {case['h']}: cookies = {case['l']} read back {obs['after']}"})
         if obs["wb"] != obs["before"]:
             v.append({"key": "cookie-writeback", "what": f"headers {case['h']}: cookies {obs['before']} written back read {obs['wb']}"})
+        if _other_headers(obs["h_after"], b"cookie") != _other_headers(case["h"], b"cookie"):
+            v.append({"key": "cookie-other-headers", "what": f"headers {case['h']}: assigning cookies changed other headers: {obs['h_after']}"})
     elif k == "respcookies":
         if sc_repr(case["l"]) and obs["after"] != case["l"]:
             v.append({"key": "setcookie-roundtrip", "what": f"cookies = {case['l']} read back {obs['after']}"})
         if obs["wb"] != obs["before"]:
             v.append({"key": "setcookie-writeback", "what": f"headers {case['h']}: {obs['before']} written back read {obs['wb']}"})
+        if _other_headers(obs["h_after"], b"set-cookie") != _other_headers(case["h"], b"set-cookie"):
+            v.append({"key": "setcookie-other-headers", "what": f"headers {case['h']}: assigning cookies changed other headers: {obs['h_after']}"})
     elif k == "mpenc":
         if obs["enc"] is not None and obs["ob"] is not None:
             v += _mp_check(obs["ob"], case["parts"], obs["back"], f"ct {case['ct']!r}")
